@@ -59,7 +59,7 @@ def specs(r):
     qs = []
     scn = r["scn"]
     jobs = {}
-    invoked_any = set()
+    touched = False  # a delete op may unregister jobs for other reasons
     for i, o in enumerate(scn["ops"]):
         if i >= len(r["obs"]) or "truncated" in r["obs"][i]:
             break
@@ -76,6 +76,8 @@ def specs(r):
             if ob["res"][0] == "j":
                 k = ob["res"][1]
                 jobs[k] = (o, ref)
+        if o["op"] in ("del", "dtags"):
+            touched = True
         # every snapshot: registered jobs with a stop have due <= stop; due >= start
         for k, (o2, ref) in jobs.items():
             if k not in ob.get("jobs", {}):
@@ -85,6 +87,9 @@ def specs(r):
                 stop = o2["stop"][0] - (o2["stop"][1] or 0)
                 if reg == 1:
                     qs.append((f"spec le {due} {stop}", {"what": "registered_within_stop", "key": k, "op": i}))
+                elif not touched and due <= stop and (not o2.get("max_att") or att < o2["max_att"]):
+                    # removed although its next due time does not exceed stop and attempts remain
+                    qs.append(("spec eq 0 1", {"what": "kept_until_past_stop", "key": k, "op": i, "due": due, "stop": stop}))
             qs.append((f"spec le {ref} {due}", {"what": "not_before_start", "key": k, "op": i}))
         if o["op"] == "exec":
             for (k, due_seen, _p) in ob["invoked"]:
